@@ -1,5 +1,5 @@
 \* C20 model check: constants are generated from the tree under test (D_* in the data module)
-SPECIFICATION SpecD
+SPECIFICATION Spec
 CONSTANTS
   EntryLists <- D_EntriesQuick
   ChainCalls = TRUE
